@@ -79,28 +79,31 @@ let pr_results rs = "ok " ^ String.concat " || " (List.map pr_result rs)
 let () =
   let gen name ~full ~seed ~n emit =
     let r = mk_rng seed in
-    let case storage (c : cfg) sect (fdes : fde_in array) (uses : (int * how) list) =
+    let case storage (c : cfg) (secthex : string Lazy.t) (fdes : fde_in array Lazy.t) (uses : (int * how) list) =
+      S_c06.sharded emit (fun () ->
+      let fdes = Lazy.force fdes in
       let line = String.concat " "
-          ([name; string_of_int storage; b01 c.aarch64; b01 c.be; string_of_int c.asize; hex_of_ints sect]
+          ([name; string_of_int storage; b01 c.aarch64; b01 c.be; string_of_int c.asize; Lazy.force secthex]
            @ List.concat_map (fun (i, h) ->
                match h with
                | Rows None -> [string_of_int i; "0"; "0"]
                | Rows (Some k) -> [string_of_int i; "1"; string_of_int (int_of_nat k)]
                | At a -> [string_of_int i; "2"; sn a]) uses) in
-      S_c06.both emit (fun () -> line) (fun dbg ->
+      (line, fun dbg ->
         if not full then "ok " ^ string_of_int (List.length uses) else
         let caps = caps_of_storage storage in
         match fresh_ctx caps with
         | None -> "panic"
-        | Some cx -> pr_results (run_history dbg caps (List.map (fun (i, h) -> (fdes.(i), h)) uses) cx)) in
+        | Some cx -> pr_results (run_history dbg caps (List.map (fun (i, h) -> (fdes.(i), h)) uses) cx))) in
     (* exhaustive: all histories of length <= n over the pool, every use iterating all rows;
        plus the same histories with every use abandoned after one row *)
     let depth = if n <= 4 then n else 3 in
     List.iter (fun (be, asize, aarch64) ->
       let es = pool be asize aarch64 in
-      let (sect, fdes) = build_pool es in
+      let built = lazy (build_pool es) in
+      let sect = lazy (hex_of_ints (fst (Lazy.force built))) and fdes = lazy (snd (Lazy.force built)) in
       let c = (List.hd es).pc in
-      let p = Array.length fdes in
+      let p = List.length es in
       List.iter (fun storage ->
         let rec enum d acc =
           if acc <> [] then begin
@@ -115,16 +118,16 @@ let () =
     for _ = 1 to count do
       let be = rand_bool r and asize = pick r [| 4; 8 |] and aarch64 = rand_bool r in
       let es = pool be asize aarch64 in
-      let (sect, fdes) = build_pool es in
+      let built = lazy (build_pool es) in
+      let sect = lazy (hex_of_ints (fst (Lazy.force built))) and fdes = lazy (snd (Lazy.force built)) in
       let c = (List.hd es).pc in
-      let p = Array.length fdes in
+      let p = List.length es in
       let len = 2 + rand_int r 10 in
       let uses = List.init len (fun _ ->
         let i = rand_int r p in
-        let f = fdes.(i) in
         let h = match rand_int r 4 with
           | 0 -> Rows (Some (nat_of_int (rand_int r 4)))
-          | 1 -> At (n_of_z (Z.add (z_of_n f.f_init) (zi (rand_int r 0x90 - 4))))
+          | 1 -> At (n_of_z (Z.add (zi (0x100 * (i + 1))) (zi (rand_int r 0x90 - 4))))
           | _ -> Rows None in
         (i, h)) in
       case (rand_int r 6) c sect fdes uses
